@@ -118,7 +118,10 @@ def make(kind, seed, world, ip, tap, reach):
                 offered = {(t['type'], t['id'], t['keylen']) for t in sa_q['proposals'][0]['transforms']} if sa_q else set()
                 how = r.choice(['extra', 'foreign_id', 'keylen', 'missing', 'two_of_one'])
                 if how == 'extra':
-                    trs.append({'type': R.T_DH, 'id': r.choice([14, 19, 20]), 'keylen': None, 'attrs': []})
+                    # a DH transform that is not already in the response (a verbatim duplicate of a chosen transform does not change the suite:
+                    # thorough soak, seed 501007964)
+                    have = {t['id'] for t in trs if t['type'] == R.T_DH}
+                    trs.append({'type': R.T_DH, 'id': next(i for i in r.sample([14, 19, 20, 21], 4) if i not in have), 'keylen': None, 'attrs': []})
                 elif how == 'foreign_id':
                     t = next((t for t in trs if t['type'] == R.T_INTEG), trs[0])
                     t['id'] = next(i for i in (2, 12, 14, 5) if (t['type'], i, None) not in offered)
